@@ -34,7 +34,7 @@ ENV['EFFICIOS_BARECTF_VERIF'] = '1'
 TRUSTED_BASE = [
     'Coq 8.16.1 kernel (coqc), including vm_compute (used for finite sweeps and for evaluating models on correspondence cases); native_compute is not used',
     'no axiom declared by the development; Print Assumptions output of each property theorem is recorded below (expected: Closed under the global context)',
-    'translators in /verif/tools (yaml2coq.py, j2coq.py, cdecl_scan.py, py2coq.py, c2coq.py) and the PyYAML / Jinja2 / Python ast parsers under them',
+    'translators in /verif/tools (yaml2coq.py, j2coq.py, cdecl_scan.py, py2coq.py, c2coq.py, opt2coq.py) and the PyYAML / Jinja2 / Python ast parsers under them',
     'correspondence harness in /verif/harness (generators, C drivers, comparators); gcc/clang, libc, the x86-64 CPU',
     'hand-written Gallina models are tied to /repo only by the correspondence runs reported in this file',
 ]
@@ -119,6 +119,7 @@ TRANSLATORS = [
     ('cdecl_scan.py', ['Decls']),
     ('py2coq.py', ['PyFuns', 'Consts']),
     ('c2coq.py', ['CSkelFuns']),
+    ('opt2coq.py', ['OpTemplates']),
 ]
 
 
